@@ -15,17 +15,27 @@ import (
 func init() {
 	register("c09", "C09", "c09", suiteC09)
 	register("allocfault", "C09", "", suiteAllocFault)
+	register("allocpanic", "C09", "", suiteAllocPanic)
 }
 
-// allocfault: the fault scenario alone (run by the checks of C01, C02, C03, C09 and C10: a lock left behind by a
-// failed first use stops the delivery of every metric of that scope)
-func suiteAllocFault(c *Ctx) {
-	c.Cov.Rule = "a cached reporter whose Allocate call panics once for one name (the Prometheus reporter does that on a registration conflict unless told otherwise), the application recovers; for each metric kind, on the root and on a subscope: a later first use of another name, recording, a report pass and the root's Close must complete within 8 s (watchdog), and what was recorded on the second name must be delivered; plus a SLOW allocation: a first use of a new histogram name parked inside AllocateHistogram while the scope's final report runs (collection of the closed scope, or the root's Close): the samples recorded on an already registered histogram of that scope must be delivered; and, per kind, a second thread asking for the name whose first use is parked inside Allocate, plus a pass: nothing half-built is handed out or reported (no panic, one Allocate, the second thread's recording delivered); every case nontrivial"
+// allocpanic: the reporter's Allocate call PANICS once and the application recovers - run by C09's check only, whose
+// statement is unconditional about it ("all of the scope API, recording and reporting may be used concurrently without
+// data races, panics or deadlock"; the library's own Prometheus reporter panics there by default).  The other
+// properties quantify over schedules, histories and inputs, not over failing reporters: their checks do not run it.
+func suiteAllocPanic(c *Ctx) {
+	c.Cov.Rule = "a cached reporter whose Allocate call panics once for one name (the Prometheus reporter does that on a registration conflict unless told otherwise), the application recovers; for each metric kind, on the root and on a subscope: a later first use of another name, recording, a report pass and the root's Close must complete within 8 s (watchdog: no lock may be left behind), and what was recorded on the second name must be delivered; every case nontrivial"
 	for _, kind := range []string{"counter", "gauge", "timer", "histogram"} {
 		for _, onSub := range []bool{false, true} {
 			c09AllocFault(c, kind, onSub)
 		}
 	}
+	c.Cov.Traces = c.Cov.Evaluations
+}
+
+// allocfault: a SLOW Allocate call (a schedule: the thread is parked inside the reporter), run by the checks of C01,
+// C02, C03, C08, C09 and C10
+func suiteAllocFault(c *Ctx) {
+	c.Cov.Rule = "a SLOW allocation: a first use of a new histogram name parked inside AllocateHistogram while the scope's final report runs (collection of the closed scope, or the root's Close): the samples recorded on an already registered histogram of that scope must be delivered; and, per kind, a second thread asking for the name whose first use is parked inside Allocate, plus a pass: nothing half-built is handed out or reported (no panic, one Allocate, the second thread's recording delivered); every case nontrivial"
 	c09SlowAlloc(c, false)
 	c09SlowAlloc(c, true)
 	for _, kind := range []string{"counter", "gauge", "timer", "histogram"} {
